@@ -55,7 +55,7 @@ def build_record(case: Dict[str, Any]) -> Any:
     from antismash.common.secmet.test.helpers import DummyCDS
     length = case["len"]
     rec = Record(Seq(_sequence(length, case.get("seqseed", 0))))
-    rec.id = rec.name = "rec1"
+    rec.id = rec.name = case.get("id", "rec1")
     rec._record.annotations.update({"topology": "circular" if case["circular"] else "linear",  # pylint: disable=protected-access
                                     "molecule_type": "DNA", "source": "x", "organism": "x"})
     for cds in case.get("cds", []):
@@ -230,48 +230,132 @@ def observe(case: Dict[str, Any]) -> Dict[str, Any]:
             entry["ann_same"] = bio.annotations == ann_before and rec._record.annotations == ann_before  # pylint: disable=protected-access
             entry["sc_after"] = comment_tree(bio.annotations)
             if "write_err" not in entry:
-                with warnings.catch_warnings():
-                    warnings.simplefilter("ignore")
-                    written = list(SeqIO.parse(filename, "genbank"))
-                entry["n_records"] = len(written)
-                ext = written[0]
-                comment = ext.annotations.get("structured_comment", {}).get("antiSMASH-Data", {})
-                entry["file_sc"] = comment_tree(ext.annotations)
-                entry["file_topology"] = ext.annotations.get("topology")
-                entry["extract"] = {"seq": str(ext.seq), "features": bio_features(ext),
-                                    "orig_start": comment.get("Orig. start"), "orig_end": comment.get("Orig. end"),
-                                    "cross_note": "cross-origin" in " ".join(str(comment.get("NOTE", "")).split())}
-                # the nucleotides every written feature covers, against the parent's
-                seq_same = []
-                for feature in ext.features:
-                    src = int(feature.qualifiers[SRC][0]) if SRC in feature.qualifiers else -1
-                    if src < 0:
-                        seq_same.append(False)
-                        continue
-                    if len(bio.features[src].location) == len(seq):
-                        # a feature going all the way round a circular record has no particular first base
-                        seq_same.append(True)
-                        continue
-                    try:
-                        seq_same.append(str(feature.extract(ext.seq)) == str(bio.features[src].extract(bio.seq)))
-                    except Exception:  # pylint: disable=broad-except
-                        seq_same.append(False)
-                entry["seq_same"] = seq_same
-                try:
-                    with warnings.catch_warnings():
-                        warnings.simplefilter("ignore")
-                        loaded = Record.from_genbank(filename)
-                    entry["reload"] = {"n_records": len(loaded), "len": len(loaded[0]),
-                                       "regions": [content_dump(loaded[0], r) for r in loaded[0].get_regions()],
-                                       "n_protos": len(loaded[0].get_protoclusters()),
-                                       "n_cands": len(loaded[0].get_candidate_clusters()),
-                                       "n_subs": len(loaded[0].get_subregions())}
-                except Exception as exc:  # pylint: disable=broad-except
-                    entry["reload_err"] = err_kind(exc)
-                    entry["msg"] = str(exc)[:200]
+                read_back(entry, filename, bio, seq)
             regions.append(entry)
     return {"len": len(seq), "seq": seq, "parent": parent, "regions": regions,
             "full_same": full_text(bio) == full_before}
+
+
+def read_back(entry: Dict[str, Any], filename: str, bio: Any, seq: str) -> None:
+    """what a written region file holds (SeqIO.parse) and what antiSMASH finds in it (Record.from_genbank), put into
+       `entry`; `bio` is the converted full record the file is supposed to be cut out of"""
+    from Bio import SeqIO
+    from antismash.common.secmet import Record
+    with warnings.catch_warnings():
+        warnings.simplefilter("ignore")
+        written = list(SeqIO.parse(filename, "genbank"))
+    entry["n_records"] = len(written)
+    ext = written[0]
+    comment = ext.annotations.get("structured_comment", {}).get("antiSMASH-Data", {})
+    entry["file_sc"] = comment_tree(ext.annotations)
+    entry["file_topology"] = ext.annotations.get("topology")
+    entry["extract"] = {"seq": str(ext.seq), "features": bio_features(ext),
+                        "orig_start": comment.get("Orig. start"), "orig_end": comment.get("Orig. end"),
+                        "cross_note": "cross-origin" in " ".join(str(comment.get("NOTE", "")).split())}
+    # the nucleotides every written feature covers, against the parent's
+    seq_same = []
+    for feature in ext.features:
+        src = int(feature.qualifiers[SRC][0]) if SRC in feature.qualifiers else -1
+        if src < 0 or src >= len(bio.features):
+            seq_same.append(False)
+            continue
+        if len(bio.features[src].location) == len(seq):
+            # a feature going all the way round a circular record has no particular first base
+            seq_same.append(True)
+            continue
+        try:
+            seq_same.append(str(feature.extract(ext.seq)) == str(bio.features[src].extract(bio.seq)))
+        except Exception:  # pylint: disable=broad-except
+            seq_same.append(False)
+    entry["seq_same"] = seq_same
+    try:
+        with warnings.catch_warnings():
+            warnings.simplefilter("ignore")
+            loaded = Record.from_genbank(filename)
+        entry["reload"] = {"n_records": len(loaded), "len": len(loaded[0]),
+                           "regions": [content_dump(loaded[0], r) for r in loaded[0].get_regions()],
+                           "n_protos": len(loaded[0].get_protoclusters()),
+                           "n_cands": len(loaded[0].get_candidate_clusters()),
+                           "n_subs": len(loaded[0].get_subregions())}
+    except Exception as exc:  # pylint: disable=broad-except
+        entry["reload_err"] = err_kind(exc)
+        entry["msg"] = str(exc)[:200]
+
+
+def observe_multi(case: Dict[str, Any]) -> Dict[str, Any]:
+    """several records — with and without regions, in any order — written by the real `main.write_outputs` (fake
+       results and options, region files only): every file `<id>.regionNNN.gbk` found in the output directory is read
+       back and held against ITS OWN record (the record of that id, converted by the real `Record.to_biopython` inside
+       `write_outputs`, whose result is tagged with identity qualifiers on the way out)"""
+    import logging
+    import types
+    from antismash import main
+    from antismash.common import serialiser
+    from antismash.common.secmet import Record
+    logging.disable(logging.CRITICAL)
+    subs = [dict(sub, id=f"rec{i + 1}") for i, sub in enumerate(case["records"])]
+    try:
+        records = [build_record(sub) for sub in subs]
+    except Exception as exc:  # pylint: disable=broad-except
+        return {"build_err": err_kind(exc), "msg": str(exc)[:200]}
+    converted: Dict[int, Any] = {}
+    snapshots: Dict[int, Any] = {}
+    real_to_biopython = Record.to_biopython
+
+    def tagged(self: Any, *args: Any, **kwargs: Any) -> Any:
+        bio = real_to_biopython(self, *args, **kwargs)
+        for i, feature in enumerate(bio.features):
+            feature.qualifiers[SRC] = [str(i)]
+        converted[id(self)] = bio
+        snapshots[id(self)] = bio_features(bio)
+        return bio
+    results = serialiser.AntismashResults("input.gbk", records, [{} for _ in records], "7.test")
+    out: Dict[str, Any] = {"records": []}
+    with tempfile.TemporaryDirectory() as tmp:
+        options = types.SimpleNamespace(version="7.test", start=-1, end=-1, html_enabled=False, minimal=True,
+                                        region_gbks=True, summary_gbk=False, zip_output=False,
+                                        output_dir=tmp, output_basename="out")
+        Record.to_biopython = tagged        # type: ignore
+        try:
+            with warnings.catch_warnings():
+                warnings.simplefilter("ignore")
+                main.write_outputs(results, options)
+        except Exception as exc:  # pylint: disable=broad-except
+            out["outputs_err"] = err_kind(exc)
+            out["msg"] = str(exc)[:200]
+        finally:
+            Record.to_biopython = real_to_biopython     # type: ignore
+        found = sorted(name for name in os.listdir(tmp) if name.endswith(".gbk"))
+        expected_names = []
+        for rec in records:
+            bio = converted.get(id(rec))
+            if bio is None:
+                return {"build_err": "not-converted", "msg": "write_outputs did not convert the record"}
+            seq = str(bio.seq)
+            regions = []
+            for region in rec.get_regions():
+                name = f"{rec.id}.region{region.get_region_number():03d}.gbk"
+                expected_names.append(name)
+                entry: Dict[str, Any] = {"data": region_data(region), "content": content_dump(rec, region)}
+                entry["sc"] = entry["sc_after"] = comment_tree(bio.annotations)
+                entry["parent_same"] = bio_features(bio) == snapshots[id(rec)] and seq == str(rec.seq)
+                entry["parent_same_as_first"] = entry["parent_same"]
+                entry["ann_same"] = True
+                if name not in found:
+                    entry["write_err"] = "no-file"
+                    entry["msg"] = f"write_outputs wrote no file {name}"
+                else:
+                    try:
+                        read_back(entry, os.path.join(tmp, name), bio, seq)
+                    except Exception as exc:  # pylint: disable=broad-except
+                        entry["write_err"] = "unreadable-file"
+                        entry["msg"] = f"{name} cannot be read back: {err_kind(exc)}: {str(exc)[:100]}"
+                regions.append(entry)
+            out["records"].append({"len": len(seq), "seq": seq, "parent": snapshots[id(rec)], "regions": regions,
+                                   "full_same": True})
+        out["files"] = found
+        out["expected_files"] = sorted(expected_names)
+    return out
 
 
 # --------------------------------------------------------------------------- generators
@@ -430,7 +514,9 @@ def canonical_content(content: Dict[str, Any], images: Optional[List[Any]],
             by_number[f"protocluster {number('protos', p['n'])}"] = protos[-1]
         protos.sort()
         cands.append([cloc, cand["kind"], protos])
-        by_number[f"candidate {number('cands', cand['n'])}"] = cands[-1]
+        # (candidate numbers are not held against the loaded record's: nothing but the one region of the file refers
+        #  to candidates by number, so which of two candidates on the same coordinates a loading record calls 1 and
+        #  which 2 — `CDSCollection.__lt__` meeting `bisect_left` — does not change what the region contains)
     out["cands"] = sorted(cands)
     subs = []
     for sub in content["subs"]:
@@ -457,6 +543,7 @@ class C12(Property):
         ("antismash/common/secmet/locations.py", "location_bridges_origin"),
         ("antismash/common/secmet/features/feature.py", "Feature.start"),
         ("antismash/main.py", "add_antismash_comments"),
+        ("antismash/main.py", "write_outputs"),
         ("antismash/common/secmet/record.py", "Record.to_biopython"),
         ("antismash/common/secmet/features/candidate_cluster/structures.py", "CandidateCluster.from_biopython"),
         ("antismash/common/secmet/features/region/structures.py", "Region.from_biopython"),
@@ -471,7 +558,8 @@ class C12(Property):
             "numbers tell apart, listed by the region's candidates in either order), 0-3 subregions, genes (single/multi-exon/origin-spanning, both "
             "strands), precursor peptides with leader/core/tail, plain motifs and misc features; candidate clusters and "
             "regions formed by the real create_candidate_clusters/create_regions (in some cases candidates made by hand and added with "
-            "the real add_candidate_cluster); EVERY region of the record is written "
+            "the real add_candidate_cluster; in some cases two to five records, with and without regions in any order, written by the "
+            "real main.write_outputs and every region file held against its own record); EVERY region of the record is written "
             "with the real Region.write_to_genbank(record=bio_record), re-read with SeqIO.parse and with "
             "Record.from_genbank; layouts are steered to: several regions, a region touching a record end, a region over "
             "the origin, a region covering a whole circular record, genes cut by the region edge, origin-spanning genes "
@@ -508,8 +596,11 @@ class C12(Property):
                 case = self.multi_exon_over_origin_case(rng)
             elif r < 0.95:
                 case = self.manual_candidate_case(rng)
-            elif r < 0.975:
+            elif r < 0.97:
                 case = self.tie_case(rng)
+            elif r < 0.985:
+                yield self.multi_record_case(rng)
+                continue
             else:
                 case = self.three_around_origin_case(rng)
             # the structured comments the full record carries (main.add_antismash_comments runs before any file is written)
@@ -655,6 +746,27 @@ class C12(Property):
         case["manual_cands"] = [[0, 1]]
         return case
 
+    def multi_record_case(self, rng: random.Random) -> Dict[str, Any]:
+        """an input of two to five records, some without any region — before, between and after records with regions —
+           written through the real `main.write_outputs` (the caller of `Region.write_to_genbank`)"""
+        n = rng.choice([2, 2, 3, 3, 4, 5])
+        with_regions = [rng.random() < 0.55 for _ in range(n)]
+        if not any(with_regions):
+            with_regions[rng.randrange(n)] = True
+        records = []
+        for has in with_regions:
+            length = rng.choice([60, 90, 120, 200, 400])
+            circular = rng.random() < 0.5
+            if has:
+                sub = gen_layout(rng, length, circular, n_protos=rng.choice([1, 2, 3]), n_subs=rng.choice([0, 1, 2]),
+                                 n_cds=rng.choice([1, 3, 5]), n_peps=0, n_misc=rng.choice([0, 1]),
+                                 force_cross=rng.random() < 0.2)
+            else:
+                sub = gen_layout(rng, length, circular, n_protos=0, n_subs=0, n_cds=rng.choice([0, 2, 4]), n_peps=0,
+                                 n_misc=rng.choice([0, 1]))
+            records.append(sub)
+        return {"records": records, "circular": any(sub["circular"] for sub in records)}
+
     def tie_case(self, rng: random.Random) -> Dict[str, Any]:
         """areas of one region on identical coordinates — two or three protoclusters (same neighbourhood; same or
            different cores), the candidates holding them, subregions — which only their record-wide numbers tell
@@ -723,11 +835,15 @@ class C12(Property):
 
     # ------------------------------------------------------------------ implementation adapter
     def run_impl(self, case: Dict[str, Any]) -> Dict[str, Any]:
+        if "records" in case:
+            return observe_multi(case)
         return observe(case)
 
     def driver_line(self, case: Dict[str, Any], obs: Dict[str, Any]) -> Optional[Dict[str, Any]]:
         if "build_err" in obs:
             return None
+        if "records" in case:
+            return {"records": [self.driver_line(sub, rec_obs) for sub, rec_obs in zip(case["records"], obs["records"])]}
         regions = []
         for r in obs["regions"]:
             entry: Dict[str, Any] = {"data": r["data"], "locs": content_locs(r["content"]), "sc": r.get("sc")}
@@ -740,6 +856,37 @@ class C12(Property):
         if "build_err" in obs:
             return Judgement(True, True, tags=("not-a-record:" + obs["build_err"],))
         assert drv is not None
+        if "records" not in case:
+            return self.judge_record(case, obs, drv)
+        # several records through main.write_outputs: every region file against its own record
+        if "err" in drv and "records" not in drv:
+            return Judgement(False, True, detail=f"driver error {drv['err']}")
+        parts = [self.judge_record(dict(sub, comment="plain"), rec_obs, rec_drv)
+                 for sub, rec_obs, rec_drv in zip(case["records"], obs["records"], drv["records"])]
+        spec = all(j.spec_ok for j in parts)
+        details = [f"record {i + 1} of {len(parts)} (rec{i + 1}, {len(o['regions'])} regions): {j.detail}"
+                   for i, (j, o) in enumerate(zip(parts, obs["records"])) if j.detail]
+        if "outputs_err" in obs:
+            spec = False
+            details.insert(0, f"main.write_outputs raised {obs['outputs_err']}: {obs.get('msg')}")
+        if obs["files"] != obs["expected_files"]:
+            spec = False
+            details.insert(0, f"region files written {obs['files']}, expected {obs['expected_files']}")
+        has = [bool(o["regions"]) for o in obs["records"]]
+        tags = {"multi-record"} | {t for j in parts for t in j.tags if not t.startswith(("regions=", "comment="))}
+        if any(not a and any(has[i + 1:]) for i, a in enumerate(has)):
+            tags.add("regionless-record-before-one-with-regions")
+        if any(not a and any(has[:i]) for i, a in enumerate(has)):
+            tags.add("regionless-record-after-one-with-regions")
+        knowns = [j.known for j in parts if not j.spec_ok]
+        known = knowns[0] if knowns and all(knowns) and spec == all(j.spec_ok for j in parts) else None
+        if spec:
+            known = None
+        return Judgement(all(j.corr_ok for j in parts), spec, in_scope=all(j.in_scope for j in parts), known=known,
+                         nontrivial=any(j.nontrivial for j in parts) or sum(has) > 0 and len(has) > 1,
+                         tags=tuple(sorted(tags)), detail=" | ".join(details)[:3000])
+
+    def judge_record(self, case: Dict[str, Any], obs: Dict[str, Any], drv: Dict[str, Any]) -> Judgement:
         if "err" in drv and "regions" not in drv:
             return Judgement(False, True, detail=f"driver error {drv['err']}")
         corr, spec = True, True
@@ -762,6 +909,11 @@ class C12(Property):
             where = f"region {k + 1} [{data['start']}:{data['end']}]"
             model = d["model"]
             # ---------------- correspondence: what was written, against the model's extract
+            if r.get("write_err") in ("no-file", "unreadable-file"):
+                spec = False
+                details.append(f"{where}: {r['msg']}")
+                known = "none"
+                continue
             if "write_err" in r:
                 tags.append("write-err:" + r["write_err"])
                 if not ("err" in model and model["err"] == r["write_err"].split(":")[0]):
@@ -881,6 +1033,15 @@ class C12(Property):
                          tags=tuple(sorted(set(tags))), detail=" | ".join(details)[:3000])
 
     def shrink(self, case: Dict[str, Any]) -> Iterator[Dict[str, Any]]:
+        if "records" in case:
+            records = case["records"]
+            for i in range(len(records)):
+                if len(records) > 1:
+                    yield dict(case, records=records[:i] + records[i + 1:])
+            for i, sub in enumerate(records):
+                for smaller in self.shrink(sub):
+                    yield dict(case, records=records[:i] + [smaller] + records[i + 1:])
+            return
         for key in ("peps", "misc", "motifs", "cds", "subs", "protos"):
             items = case.get(key, [])
             if len(items) > 1:
